@@ -8,4 +8,4 @@ Extraction "C01_model.ml"
   h3_request_outcome h3_response_outcome mk_hmap mk_uri
   uri_scheme_str uri_authority uri_path_and_query pq_as_str
   ref_request_outcome ref_response_outcome
-  expected_events norm_request norm_response norm_trailers request_wf.
+  expected_events norm_request norm_response norm_trailers request_wf group_fields.
